@@ -104,8 +104,10 @@ def gen_ruleset(rng, profile, name=""):
     for n, i in enumerate(idx): layout[i] = ["eof", n + 1]
     # '|' actions: a rule shares the action of the rule that follows it in the file
     for i, e in enumerate(layout[:-1]):
-        # (not on a rule that itself has trailing context: known finding bar-after-trailing-context)
-        if e[0] == "rule" and layout[i + 1][0] == "rule" and rules[e[1] - 1]["trail"] == NONE and rng.random() < o.get("p_bar", 0):
+        # (not on a '$' rule: known finding bar-after-dollar; not across a change of start conditions: with
+        # <SC>{ ... } scopes flex, like 2.6.4, does not take the scope for the next "rule")
+        if e[0] == "rule" and layout[i + 1][0] == "rule" and not rules[e[1] - 1].get("dollar") \
+                and rules[e[1] - 1]["scs"] == rules[layout[i + 1][1] - 1]["scs"] and rng.random() < o.get("p_bar", 0):
             rules[e[1] - 1]["bar"] = True
     rs = ruleset(rules, scs, ci=ci, sevenbit=seven, defs=defs, eofs=eofs, layout=layout, name=name)
     rs["profile"] = profile
@@ -116,6 +118,32 @@ def gen_ruleset(rng, profile, name=""):
 def _patch_ci(g, cisafe):
     orig = g.ccl_items
     g.ccl_items = lambda ci: orig(ci or cisafe)
+
+
+def proto_ruleset(rng, name=""):
+    """keyword-table shapes: several prefixes share most of their continuations, so that the compressed
+    representation stores their DFA states as differences against a prototype / template (tblcmp.c), with jam
+    entries among the differences"""
+    c = P.chr_
+    conts = rng.sample(range(97, 123), rng.randint(8, 14))
+    pres = rng.sample([35, 64, 36, 37, 38, 33], rng.randint(2, 4))
+    rules = [rule(c(b)) for b in conts]                      # every continuation its own equivalence class
+    for p_ in pres:
+        sub = [b for b in conts if rng.random() < 0.8] or conts[:1]
+        if rng.random() < 0.5:
+            rules.append(rule(P.cat(c(p_), P.ccl([P.cb(b) for b in sub]))))
+        else:
+            for b in sub[:rng.randint(1, len(sub))]: rules.append(rule(P.cat(c(p_), c(b))))
+            rest = sub[len(sub) // 2:]
+            if rest and rng.random() < 0.6: rules.append(rule(P.cat(c(p_), P.plus(P.ccl([P.cb(b) for b in rest])))))
+    rng.shuffle(rules)
+    rs = ruleset(rules, name=name)
+    rs["profile"] = "proto"
+    return rs
+
+
+def proto_family(n, seed0=7000):
+    return [proto_ruleset(random.Random(seed0 + i), name="core-proto-%d" % i) for i in range(n)]
 
 
 def core_family(per_profile=4, seed0=1000):
